@@ -1166,8 +1166,8 @@ class Exec:
             # old = new - d.  (The terms of the executor always denote the current memory.)
             back = sym.sub(lv, rhs) if op == "+=" else sym.add(lv, rhs)
             for vid, val in list(self.env.items()):
-                if isinstance(val, tuple) and val and val[0] not in ("cell", "alias") and sym.contains(val, lv):
-                    self.env[vid] = sym.subst(val, {lv: back})
+                if isinstance(val, tuple) and val and val[0] not in ("cell", "alias") and any(st == lv for st in sym.loaded_subterms(val)):
+                    self.env[vid] = sym.subst_loaded(val, {lv: back})
         return lv
 
     # ------------------------------------------------------------------ tracked memory
